@@ -7,6 +7,8 @@ import (
 	"encoding/json"
 	"flag"
 	"fmt"
+	"sync"
+	"sync/atomic"
 
 	"github.com/privacybydesign/gabi"
 	"github.com/privacybydesign/gabi/big"
@@ -43,6 +45,7 @@ const (
 	tRandomQR           // common.RandomQR on the shared modulus
 	tProveList          // BuildProofList over two credentials (linked proofs)
 	tIssueCommit        // issuance commitment (ProofU) with the shared secret
+	tRandStress         // tight loop of 2000 one-block reads from the process-wide generator (free-running class)
 	tOpKinds
 )
 
@@ -63,6 +66,10 @@ type TSpec struct {
 	Schedule  []uint16 `json:"schedule"`
 	Buggify   []string `json:"buggify"`
 	Sequential bool    `json:"sequential"` // run every phase's tasks one after the other (no interleaving)
+	// FreeRun: the tasks of each phase run as ordinary goroutines with real parallelism and no
+	// scheduler (stress class; not replayable exactly). Interleavings between two adjacent atomic
+	// operations are out of the controlled scheduler's reach; this class reaches them statistically.
+	FreeRun bool `json:"free_run"`
 }
 
 func drawTSpec(rt *rapid.T, kinds []int, maxTasks, maxOps, maxPhases int) TSpec {
@@ -126,6 +133,7 @@ type tRead struct {
 }
 
 type tResult struct {
+	Blocks   [][16]byte // first blocks of stress reads
 	Proofs   []tProof
 	Reads    []tRead
 	Errors   []string
@@ -186,10 +194,18 @@ func runT(r *kernel.Run, s TSpec) *tResult {
 			vec = nil
 		}
 		sc := kernel.NewSched(len(tasks), vec, s.LibSeed+uint64(p)*7919, buggify)
+		var freeSeq atomic.Int64
+		tick := func() int64 {
+			if s.FreeRun {
+				return freeSeq.Add(1)
+			}
+			return sc.Tick()
+		}
 		type slot struct {
 			proofs []tProof
 			reads  []tRead
 			errs   []string
+			blocks [][16]byte
 		}
 		slots := make([]slot, len(tasks))
 		var fns []func()
@@ -253,12 +269,21 @@ func runT(r *kernel.Run, s TSpec) *tResult {
 						}
 					case tRandRead:
 						buf := make([]byte, op.N)
-						call := sc.Tick()
+						call := tick()
 						if _, err := gabi.VerifFastRandomRead(buf); err != nil {
 							sl.errs = append(sl.errs, err.Error())
 						}
-						ret := sc.Tick()
+						ret := tick()
 						sl.reads = append(sl.reads, tRead{Call: call, Ret: ret, N: op.N, Bytes: buf, Task: ti})
+					case tRandStress:
+						var b [16]byte
+						for k := 0; k < 2000; k++ {
+							if _, err := gabi.VerifFastRandomRead(b[:]); err != nil {
+								sl.errs = append(sl.errs, err.Error())
+								break
+							}
+							sl.blocks = append(sl.blocks, b)
+						}
 					case tRandomQR:
 						q := gabi.VerifRandomQR(pk.N)
 						if q == nil || q.Sign() <= 0 || q.Cmp(pk.N) >= 0 {
@@ -268,16 +293,41 @@ func runT(r *kernel.Run, s TSpec) *tResult {
 				}
 			})
 		}
-		prevReader := cryptorand.Reader
-		cryptorand.Reader = &kernel.SimReader{S: sc, Fallback: prevReader}
-		gabi.VerifInstallHooks(gabi.VerifHooks{Yield: sc.Yield, Buggify: sc.BuggifyAt})
-		sc.Run(fns)
-		gabi.VerifInstallHooks(gabi.VerifHooks{})
-		cryptorand.Reader = prevReader
+		if s.FreeRun {
+			var wg sync.WaitGroup
+			var emu sync.Mutex
+			start := make(chan struct{})
+			for _, f := range fns {
+				wg.Add(1)
+				go func(f func()) {
+					defer wg.Done()
+					defer func() {
+						if e := recover(); e != nil {
+							emu.Lock()
+							res.Panics = append(res.Panics, fmt.Sprintf("task panicked: %v", e))
+							emu.Unlock()
+						}
+					}()
+					<-start
+					f()
+				}(f)
+			}
+			close(start)
+			wg.Wait()
+			r.Probe("free-running-phases")
+		} else {
+			prevReader := cryptorand.Reader
+			cryptorand.Reader = &kernel.SimReader{S: sc, Fallback: prevReader}
+			gabi.VerifInstallHooks(gabi.VerifHooks{Yield: sc.Yield, Buggify: sc.BuggifyAt})
+			sc.Run(fns)
+			gabi.VerifInstallHooks(gabi.VerifHooks{})
+			cryptorand.Reader = prevReader
+		}
 
 		for _, sl := range slots {
 			res.Proofs = append(res.Proofs, sl.proofs...)
 			res.Reads = append(res.Reads, sl.reads...)
+			res.Blocks = append(res.Blocks, sl.blocks...)
 			res.Errors = append(res.Errors, sl.errs...)
 		}
 		res.Switches += len(sc.Switches())
